@@ -40,3 +40,90 @@ Definition c10_ce_illformed : list op :=
    OUpdate (VDoc []) (VDoc [("$set", VDoc [("x", VInt 1)])]) false false].
 Example c10_refuted_illformed : c10_holds c10_ce_illformed = (false, 2).
 Proof. vm_compute. reflexivity. Qed.
+
+(* ------------------------------------------------------------------------------------------
+   First half (entry-point agreement, Properties/C10.v C10_find_is_scan ... ): one checked
+   counterexample for each premise on the state. *)
+From Verif Require Import C14Base C14Ops C10Entry.
+Open Scope list_scope.
+
+(* premise self_keyed of C10_delete_many_is_scan / C10_delete_one_is_scan / C10_entry_points_agree
+   (model-only): a hashdict _id with a repeated field name is not == to itself, so looking the
+   found document up by its _id misses its own entry: count / find / update see one match,
+   delete_many and delete_one raise KeyError.  Reachable from the empty collection. *)
+Definition c10_ce_selfkey_ops : list op :=
+  [OInsertOne (VDoc [("_id", VDoc [("b", VInt 1); ("b", VInt 2)]); ("x", VInt 1)])].
+Definition c10_ce_selfkey : coll := final false empty_coll c10_ce_selfkey_ops.
+Example c10_refuted_self_keyed :
+  (exists m, iter_documents c10_ce_selfkey (patch (VDoc [])) = Ok (c10_ce_selfkey, m)
+             /\ List.length m = 1%nat)
+  /\ self_keyedb (docs c10_ce_selfkey) = false
+  /\ snd (count_op c10_ce_selfkey (VDoc []) 0 None) = Ok (VInt 1)
+  /\ snd (delete_op c10_ce_selfkey (VDoc []) true) = Err EKey
+  /\ snd (delete_op c10_ce_selfkey (VDoc []) false) = Err EKey.
+Proof.
+  split; [eexists; split; [vm_compute; reflexivity|reflexivity]|].
+  vm_compute. repeat split; reflexivity.
+Qed.
+
+Example c10_self_keyed_fails : ~ self_keyed (docs c10_ce_selfkey).
+Proof.
+  intro H.
+  destruct (H [] (VDoc [("b", VInt 1); ("b", VInt 2)])
+              (VDoc [("_id", VDoc [("b", VInt 1); ("b", VInt 2)]); ("x", VInt 1)]) [] eq_refl)
+    as (id & Hid & Hk & _).
+  vm_compute in Hid. injection Hid as <-. vm_compute in Hk. discriminate.
+Qed.
+
+(* premise docs_only of C10_find_is_scan / C10_distinct_is_scan_gen (model-only, not reachable
+   through the operations): a store entry that is not a document is counted by
+   count_documents({}) but find and delete crash on it *)
+Definition c10_ce_nondoc : coll := mkColl [(VInt 1, VInt 5)] [] true 1000 0 [].
+Example c10_refuted_docs_only :
+  iter_documents c10_ce_nondoc (patch (VDoc [])) = Ok (c10_ce_nondoc, [(VInt 1, VInt 5)])
+  /\ snd (count_op c10_ce_nondoc (VDoc []) 0 None) = Ok (VInt 1)
+  /\ snd (find_op c10_ce_nondoc (VDoc []) None [] 0 0) = Err ECrash
+  /\ snd (delete_op c10_ce_nondoc (VDoc []) true) = Err ECrash.
+Proof. vm_compute. repeat split; reflexivity. Qed.
+
+(* premise "the update succeeds" of C10_update_many_matched: the scan matches two documents,
+   the update raises on the second one; update_many fails AFTER having modified the first
+   (no rollback), so no matched count is reported at all *)
+Definition c10_ce_partial_ops : list op :=
+  [OInsertOne (VDoc [("_id", VInt 1); ("x", VInt 1)]);
+   OInsertOne (VDoc [("_id", VInt 2); ("x", VStr "s")])].
+Definition c10_ce_partial : coll := final false empty_coll c10_ce_partial_ops.
+Example c10_update_many_partial :
+  snd (count_op c10_ce_partial (VDoc []) 0 None) = Ok (VInt 2)
+  /\ (let '(c', r) := update_op false c10_ce_partial (VDoc [])
+                        (VDoc [("$inc", VDoc [("x", VInt 1)])]) true false in
+      (r, docs c'))
+     = (Err EType, [(VInt 1, VDoc [("_id", VInt 1); ("x", VInt 2)]);
+                     (VInt 2, VDoc [("_id", VInt 2); ("x", VStr "s")])]).
+Proof. vm_compute. split; reflexivity. Qed.
+
+(* premise "the scan succeeds" (iter_documents c f = Ok ...): the entry points do NOT agree
+   on a filter that raises on some document only.  The matcher validates operators lazily
+   ($or stops at the first true clause), so {$or: [{_id: 1}, {x: {$bogus: 1}}]} is accepted on
+   document 1 and raises OperationFailure on document 2.  count_documents, find_one,
+   delete_one scan the whole store and raise; update_one stops at its first match and
+   succeeds (matched 1, document 1 modified). *)
+Definition c10_ce_lazy_ops : list op :=
+  [OInsertOne (VDoc [("_id", VInt 1); ("x", VInt 1)]);
+   OInsertOne (VDoc [("_id", VInt 2); ("x", VInt 5)])].
+Definition c10_ce_lazy : coll := final false empty_coll c10_ce_lazy_ops.
+Definition c10_ce_lazy_f : value :=
+  VDoc [("$or", VArr [VDoc [("_id", VInt 1)]; VDoc [("x", VDoc [("$bogus", VInt 1)])]])].
+Example c10_lazy_update_one_disagrees :
+  iter_documents c10_ce_lazy (patch c10_ce_lazy_f) = Err EOpFail
+  /\ snd (count_op c10_ce_lazy c10_ce_lazy_f 0 None) = Err EOpFail
+  /\ snd (find_one c10_ce_lazy c10_ce_lazy_f None []) = Err EOpFail
+  /\ snd (delete_op c10_ce_lazy c10_ce_lazy_f false) = Err EOpFail
+  /\ snd (update_op false c10_ce_lazy c10_ce_lazy_f (VDoc [("$inc", VDoc [("x", VInt 1)])]) true false)
+     = Err EOpFail
+  /\ (let '(c', r) := update_op false c10_ce_lazy c10_ce_lazy_f
+                        (VDoc [("$inc", VDoc [("x", VInt 1)])]) false false in (r, docs c'))
+     = (Ok (VDoc [("matched", VInt 1); ("modified", VInt 1); ("upserted_id", VNull)]),
+        [(VInt 1, VDoc [("_id", VInt 1); ("x", VInt 2)]);
+         (VInt 2, VDoc [("_id", VInt 2); ("x", VInt 5)])]).
+Proof. vm_compute. repeat split; reflexivity. Qed.
